@@ -19,6 +19,9 @@ pub struct Case {
     pub peer_nonce: u8,
     /// put the channel's policy back before every chunk (C08: every chunk meets the same channel state)
     pub reset_policy: bool,
+    /// C08: chunks fed to the channel, in order, before EVERY judged chunk (after the policy was put back);
+    /// they are reported once, ahead of the judged chunks
+    pub pre: Vec<Vec<u8>>,
 }
 
 // ---------------------------------------------------------------- status classes
@@ -193,7 +196,7 @@ pub fn mutate(v: &mut Vec<u8>, r: &mut Rng) -> &'static str {
 
 pub fn mk_case(policy: usize, mode: usize, chunks: Vec<Vec<u8>>, tag: &str) -> Case {
     Case { policy, mode, chan_id: 5, rid: 1, sid: 0, has_cert: policy != 0, has_pkey: policy != 0, has_keys: policy != 0,
-           start: 1, chunks, validate: false, tag: tag.to_string(), peer_nonce: 11, reset_policy: false }
+           start: 1, chunks, validate: false, tag: tag.to_string(), peer_nonce: 11, reset_policy: false, pre: Vec::new() }
 }
 
 
@@ -232,11 +235,12 @@ pub fn exec_case(c: &Case) -> (String, Vec<i128>) {
         let mut t_aes: Vec<String> = Vec::new();
         let mut t_utf8: Vec<String> = Vec::new();
         let mut views: Vec<String> = Vec::new();
+        let mut pre_views: Vec<String> = Vec::new();
         // opaque regions are numbered by first appearance of their (real) content, so that the same
         // certificate / block / signature gets the same placeholder in every chunk of the case
         let mut ids: std::collections::HashMap<Vec<u8>, usize> = std::collections::HashMap::new();
         let mut id_of = move |b: &[u8]| -> usize { let n = ids.len(); *ids.entry(b.to_vec()).or_insert(300 + n) };
-        for real in &c.chunks {
+        for (is_pre, real) in c.pre.iter().map(|x| (true, x)).chain(c.chunks.iter().map(|x| (false, x))) {
             // -- the oracle pass: find the slices the receive path hands to the primitives
             let mut view = real.clone();
             if real.len() >= 12 && &real[..3] == b"OPN" {
@@ -346,10 +350,24 @@ pub fn exec_case(c: &Case) -> (String, Vec<i128>) {
                     }
                 }
             }
-            views.push(segs(&view));
+            if is_pre { pre_views.push(segs(&view)); } else { views.push(segs(&view)); }
 
             // -- the real receive path
-            if c.reset_policy { ch.set_security_policy(POLICIES[c.policy]); policy_now = c.policy; }
+            if is_pre {
+                // reported once, threaded from the channel's configured policy
+                if pre_views.len() == 1 { ch.set_security_policy(POLICIES[c.policy]); }
+                match guarded(|| ch.verify_and_remove_security(real)) {
+                    Ok(Ok(rc)) => { out.push(0); out.push(rc.data.len() as i128); }
+                    Ok(Err(e)) => { out.push(class(e)); out.push(-1); }
+                    Err(_) => { out.push(-2); out.push(-1); }
+                }
+                continue;
+            }
+            if c.reset_policy {
+                ch.set_security_policy(POLICIES[c.policy]);
+                for p in &c.pre { let _ = guarded(|| ch.verify_and_remove_security(p)); }
+                policy_now = c.policy;
+            }
             match guarded(|| ch.verify_and_remove_security(real)) {
                 Ok(Ok(rc)) => { out.push(0); out.push(rc.data.len() as i128); if let Some(l) = received.as_mut() { l.push(rc); } }
                 Ok(Err(e)) => { out.push(class(e)); out.push(-1); received = None; }
@@ -379,8 +397,10 @@ pub fn exec_case(c: &Case) -> (String, Vec<i128>) {
             match &pkey { Some(k) => format!("(Some ({}, {}))", c.rid + 1, k.size()), None => "None".into() },
             coq_opt(&verkey, |k| zbytes(k)), c.start, views.join("; "), coq_bool(c.validate),
             t_certs.join("; "), t_rsa.join("; "), t_ver.join("; "), t_aes.join("; "), t_utf8.join("; "));
+        PRE_VIEWS.with(|p| *p.borrow_mut() = pre_views);
         (term, out)
 }
+thread_local! { pub static PRE_VIEWS: std::cell::RefCell<Vec<String>> = std::cell::RefCell::new(Vec::new()); }
 
 #[allow(non_snake_case)]
 fn IDENT_READY(_i: usize) -> bool { true }
